@@ -479,6 +479,10 @@ func c01Render(sid int, doc string, cfg string, out *drv.Out) (c01Rec, *rec.Doc,
 	case panicked:
 		add(c01Ev{E: "Panic", What: site + ":" + msg})
 		key = "C01:panic:" + site + ":" + msg
+		if strings.Contains(msg, "expected non nil box for the root") {
+			// (the panic of makePage only says that some layout function returned no box: name the feature)
+			key += ":" + c01Culprit(doc)
+		}
 		recd = nil
 	default:
 		add(c01Ev{E: "Return"})
@@ -638,7 +642,7 @@ func c01Main(args []string) int {
 
 // c01Culprit names the feature a livelocked document most likely owes its livelock to (part of the finding key).
 func c01Culprit(doc string) string {
-	for _, f := range []string{"footnote", "display:grid", "display:flex", "columns", "column-count", "float:", "position:", "<table", "display:table", "break-"} {
+	for _, f := range []string{"footnote", "display:grid", "display:flex", "columns:", "column-count", "float:", "position:", "<table", "display:table", "break-"} {
 		if strings.Contains(doc, f) {
 			return strings.Trim(f, "<:-")
 		}
